@@ -250,6 +250,21 @@ def check_file(env, rec, rows, columns, onsets, label):
     if len(unordered) != want_unordered:
         rec.violation(f"C07:unordered-warning-count:{label}", file=tsv, expected=want_unordered, got=len(unordered))
     rec.outcome("ok:" + ("errors" if by_row else "clean"))
+    # the same file with a trailing tab after every data row (not after the header): same columns, same issues
+    if label.startswith(("F1", "F3")) and label.endswith(":sorted"):
+        head, _, body = tsv.partition("\n")
+        ragged = head + "\n" + "".join(line + "\t\n" for line in body.splitlines())
+        rec.n("evaluations")
+        try:
+            again = validate_file(env, ragged, sj)
+        except Exception as e:
+            rec.violation(f"C07:raises:{type(e).__name__}:trailing-tab", file=ragged, error=repr(e)[:300])
+            return issues
+
+        def key(lst):
+            return sorted((i["code"], i.get("ec_row"), i.get("ec_column")) for i in lst)
+        if key(again) != key(issues):
+            rec.violation("C07:trailing-tab-shifts-columns", file=ragged, without=key(issues), with_trailing_tab=key(again))
     return issues
 
 
